@@ -126,10 +126,12 @@ class World:
     def discover(self):
         m = self.m
         self.containers = []  # (label, object)
+        self.owners = []  # (owner, attribute, container object): to undo a rebinding
         for cls in self.classes():
             for name, val in vars(cls).items():
                 if isinstance(val, (dict, list, set)) and not name.startswith("__"):
                     self.containers.append((f"{cls.__name__}.{name}", val))
+                    self.owners.append((cls, name, val))
         for modname, mod in sorted(sys.modules.items()):
             if not (modname == "measured" or modname.startswith("measured.")):
                 continue
@@ -140,6 +142,7 @@ class World:
                     continue
                 if isinstance(val, (dict, list, set)):
                     self.containers.append((f"{modname}.{name}", val))
+                    self.owners.append((mod, name, val))
         self.caches = []
         seen = set()
 
@@ -211,6 +214,11 @@ class World:
 
     def restore(self, snap=None):
         snap = snap or self.base
+        for owner, name, obj in self.owners:
+            # a registry that was replaced by a new object (copy-on-write) is bound back to
+            # the object whose contents are restored below
+            if getattr(owner, name, None) is not obj:
+                setattr(owner, name, obj)
         for c, saved in snap.containers:
             _restore_container(c, saved)
         for obj, attrs, has_dict in snap.instances:
